@@ -2,7 +2,7 @@
 from .. import families, scan, zw
 from ..families import short, ctor_fields
 from ..terms import subterms
-from . import racelike, flow, common, c02, c03, prims, joinlike
+from . import racelike, flow, common, c01, c02, c03, prims, joinlike
 
 PROPERTY = "C07"
 LEVEL = "other"
@@ -24,6 +24,7 @@ ASSUMPTIONS = [
     "C03.GUARD: a child whose slot is Ready is never polled again",
 ]
 RULES = {
+    "C07.LIVE": "premises from the wake protocol, re-checked here for this family: task waker registered first, child polled with its own sub-waker (or the caller's context), no readiness lock across a child poll, a cleared bit is followed by a poll, re-arm after an item, readiness primitives / Wake::wake forward correctly",
     "C07.OK": "Ready(Ok) edge => same-call return of that payload, nothing polled afterwards; Ok returns only carry polled payloads",
     "C07.SLOT": "Ready(Err) edge => error stored in the child's own slot, completed+1 once, state Ready; counter written nowhere else",
     "C07.ALL": "Ready(Err) only under completed == N with the positional swapped-out error array; completion test evaluated after any failure before Pending; Pending only after the scan",
@@ -39,6 +40,7 @@ def run(ctx):
         ctx.current_config = cfg
         M = ctx.model(cfg)
         units = families.passthrough_units(M, ("race_ok",))
+        c01.live_premises(ctx, M, [u for u in units if u.container != "vec"], "C07.LIVE")
         for u in units:
             flow.rule_integrity(ctx, u.bi, "C07.OK", u.where, ("Ready(Ok)",), "the winner's value")
             flow.rule_integrity(ctx, u.bi, "C07.VEC" if u.container == "vec" else "C07.ALL", u.where, ("Ready(Err)",), "the aggregate error")
